@@ -20,7 +20,27 @@ def rotation(rng):
     return Rotation.random(random_state=int(rng.integers(2 ** 31))).as_matrix()
 
 
-def decorate(a):
+def snap_to_axes(R, c2_only=False):
+    """the proper rotation that maps the axes onto (+/-) axes and is closest to R: every eighth orientation is one of the 24
+    axis-aligned ones (cell vectors exactly along negative cartesian axes), another eighth one of the three two-fold rotations
+    about x, y, z (a diagonal cell matrix stays exactly diagonal, with two negative entries)"""
+    import itertools
+
+    best, bestv = None, -1e9
+    for perm in ([(0, 1, 2)] if c2_only else itertools.permutations(range(3))):
+        for signs in itertools.product((1, -1), repeat=3):
+            P = np.zeros((3, 3))
+            for i in range(3):
+                P[i, perm[i]] = signs[i]
+            if np.linalg.det(P) < 0 or (c2_only and signs == (1, 1, 1)):
+                continue
+            v = float(np.sum(P * R))
+            if v > bestv:
+                best, bestv = P, v
+    return best
+
+
+def decorate(a, force=False):
     """Every second structure (decided by a hash of its coordinates, no random numbers consumed) carries what users' Atoms
     objects commonly carry: a FixAtoms constraint on some atoms, tags, initial charges, momenta.  None of it is part of the
     structure the properties speak about, so no result may depend on it.  Applied last: ASE's own set_positions honours
@@ -28,6 +48,8 @@ def decorate(a):
     from ase.constraints import FixAtoms
 
     h = int(abs(float(np.sum(a.positions)) * 1e3)) % 4
+    if force:
+        h = 2 + h % 2
     if h < 2 or len(a) == 0:
         return a
     a.set_constraint(FixAtoms(indices=list(range(h % 2, len(a), 2))))
@@ -55,9 +77,31 @@ def rigid(atoms, rng, rotate=True, translate=True, permute=True):
     a = atoms.copy()
     if rotate:
         R = rotation(rng)
+        hR = int(abs(R[0, 0]) * 1e6) % 8
+        if hR == 0:
+            R = snap_to_axes(R)
+        elif hR == 4:
+            R = snap_to_axes(R, c2_only=True)
         a.set_cell(a.cell[:] @ R.T, scale_atoms=True)
     if translate:
         a.translate(rng.uniform(-3, 3, 3))
+        cell = a.cell[:]
+        pbc = a.get_pbc()
+        h = int(abs(float(np.sum(atoms.positions)) * 1e3) // 12) % 3
+        if abs(np.linalg.det(cell)) > 1e-9 and h:
+            # two more re-descriptions of the same structure (decided by a hash of the coordinates): (h = 1) the atoms pushed far along
+            # the NON-periodic cell vectors - where an atom sits along a non-periodic direction is arbitrary, ASE builders even
+            # produce zero-length vectors there; (h = 2) shifted by about half a cell along the periodic vectors and wrapped, so that
+            # slabs and sheets continue through the cell boundary
+            if h == 1 and not pbc.all():
+                for i in range(3):
+                    if not pbc[i]:
+                        a.translate(float(rng.choice([-1, 1])) * float(rng.uniform(0.4, 1.3)) * cell[i])
+            elif h == 2 and pbc.any():
+                for i in range(3):
+                    if pbc[i]:
+                        a.translate(float(rng.uniform(0.3, 0.7)) * cell[i])
+                a.wrap()
     perm = np.arange(len(a))
     if permute:
         perm = rng.permutation(len(a))
